@@ -429,6 +429,7 @@ func C07(c *core.Ctx) {
 	}
 	c07StringsEncoded(c)
 	c07ArrayComplete(c)
+	c07EntryPoints(c)
 }
 
 // c07StringsEncoded — C07-R8: the raw text of an object key and of a string
@@ -884,4 +885,67 @@ func c07ArrayComplete(c *core.Ctx) {
 	_ = loop
 	why := everyIteration(p, info, fd.Decl.Body, enc, func(ast.Expr, bool) bool { return false })
 	c.Ob("C07-R9", fd.Name()+"#every-element", enc.Pos(), why == "", "not every element of an array is written: "+why+" — [x,null] and [x] get the same canonical form, so adding or removing a null entry of an array does not change the digest")
+}
+
+// c07EntryPoints — C07-R10: whatever the canonicalising entry points of package
+// c14n hand back was produced by serialising the tree that UnmarshalJSON built
+// from a JSON text: MarshalJSON(any) and CanonicalJSON(reader) return the result
+// of CanonicalJSON(…), or of MarshalJSON() on a value obtained from
+// UnmarshalJSON(…). A shortcut that returns the argument's own MarshalJSON()
+// (a json.RawMessage, a document object, a hand-built tree) hands back bytes
+// that never went through the canonical model.
+func c07EntryPoints(c *core.Ctx) {
+	p := c.P
+	c.Rule("C07-R10", "the canonicalising entry points return only what the canonical tree serialises", 2)
+	pkgPath := core.ModPath + "/c14n"
+	isFn := func(fn *types.Func, name string) bool {
+		return fn != nil && fn.Pkg() != nil && fn.Pkg().Path() == pkgPath && fn.Name() == name && fn.Type().(*types.Signature).Recv() == nil
+	}
+	for _, name := range []string{"MarshalJSON", "CanonicalJSON"} {
+		fd := p.Func("c14n", "", name)
+		if fd == nil {
+			c.Ob("C07-R10", "UNRESOLVED:c14n."+name, token.NoPos, false, "function not found")
+			continue
+		}
+		info := fd.Pkg.TypesInfo
+		ld := core.NewLocalDefs(info, fd.Decl.Body)
+		ff := core.NewFuncFlow(fd)
+		n := 0
+		for _, r := range ff.Flow.Returns() {
+			if !ff.Flow.Reachable(r) || len(r.Results) == 0 {
+				continue
+			}
+			res := r.Results[0]
+			if len(r.Results) == 2 && core.IsNil(info, res) {
+				continue // a failure
+			}
+			n++
+			ok, why := true, ""
+			for _, src := range valueSources(info, ld, res, 0) {
+				call, isCall := ast.Unparen(src).(*ast.CallExpr)
+				if !isCall {
+					ok, why = false, types.ExprString(src)
+					continue
+				}
+				fn := core.Callee(info, call)
+				switch {
+				case isFn(fn, "CanonicalJSON"):
+				case fn != nil && fn.Name() == "MarshalJSON" && core.RecvExpr(call) != nil:
+					// the receiver must be the tree UnmarshalJSON built
+					for _, rs := range valueSources(info, ld, core.RecvExpr(call), 0) {
+						rc, isC := ast.Unparen(rs).(*ast.CallExpr)
+						if !isC || !isFn(core.Callee(info, rc), "UnmarshalJSON") {
+							ok, why = false, types.ExprString(call)+", whose receiver is not the result of UnmarshalJSON"
+						}
+					}
+				default:
+					ok, why = false, types.ExprString(call)
+				}
+			}
+			c.Ob("C07-R10", fmt.Sprintf("%s#result%d", fd.Name(), n), r.Pos(), ok, fmt.Sprintf("%s returns %s: bytes that were not produced by serialising the canonical tree built from a JSON text — a value with its own MarshalJSON (json.RawMessage, a document object, a hand-built tree) comes back as it is, unsorted and unnormalised", fd.Name(), why))
+		}
+		if n == 0 {
+			c.Ob("C07-R10", fd.Name()+"#result", fd.Decl.Pos(), false, "NOT FOUND: no result returned")
+		}
+	}
 }
